@@ -717,6 +717,13 @@ func (env *Env) call(x *ECall) SVal {
 			return b(app(">=", app("rid", app("iptr", v.T)), a0))
 		}
 		fail("fresh of %s", v.Sort)
+	case "dstring":
+		// the exact decimal string of a number (decimal.Decimal.String)
+		v := env.value(env.eval(x.Args[0]))
+		if v.Sort == "Int" {
+			v.T = toReal(v.T)
+		}
+		return SVal{T: app(d.Fun("decimal_String", []string{"Real"}, "Str"), v.T), Typ: tString, Sort: "Str"}
 	case "outok":
 		return b(env.cur.heap(outOKHeap, "Bool"))
 	case "outlen":
